@@ -129,6 +129,22 @@ theorem java_reads_struct_fields (c : Cfg) (nm : String) (items : Items) (hw : d
       Pdlv.decodeFull { e := c.e, mode := .ideal } (.root nm items) bs = .ok v :=
   decode_same3 c nm items hw bs hb v
 
+/-- **C19, serializer with struct-typed fields.**  The class of `java_writes_arrays_and_payloads` extended by fields typed by a
+    struct whose own fields are in that class (`Java.encWfItems3`): `buf.put(x.toBytes())` writes the reference encoding of
+    the struct value in place. -/
+theorem java_writes_struct_fields (c : Cfg) (nm : String) (items : Items) (hw : encWfItems3 items = true)
+    (hr : refWfBody (.root nm items) = true) (v : Value) (bs : Bytes)
+    (h : Pdlv.encBody { e := c.e, mode := .ideal } (.root nm items) v = .ok bs) :
+    Java.encBodyS c (.root nm items) v = .ok bs ∧ Ref.encode c.e (.root nm items) v = some bs := by
+  refine ⟨?_, encode_ideal_eq_ref c.e _ hr v bs h⟩
+  simp only [Pdlv.encBody] at h
+  simp only [Java.encBodyS, Java.encStructS]
+  split at h
+  · cases h
+  · rename_i p hp
+    simp only [hp]
+    exact items_refE3 c.e items p v items bs hw h
+
 /-- the model the driver runs against the emitted classes also covers struct-typed fields (`Pdlv.JavaStruct`: the struct parsed
     from `buf.slice()`, the buffer advanced by its `width()`; compared by execution, no theorem of their own); on the classes of
     the two theorems above it IS the model they are about -/
@@ -141,12 +157,12 @@ theorem java_struct_model_is_the_same_on_the_classes (c : Cfg) (nm : String) (it
 example :
     let sb : Body := .root "S" (.cons (.chunk [.scalar "a" 8]) (.cons (.chunk [.scalar "b" 16]) .nil))
     let items : Items := .cons (.chunk [.scalar "k" 8]) (.cons (.typedef "s" (.struct "S" sb) (some 3)) (.cons (.chunk [.scalar "t" 8]) .nil))
-    decWfItems3 items = true ∧
+    decWfItems3 items = true ∧ encWfItems3 items = true ∧
     Java.decodeFullS { e := .little } (.root "P" items) [1, 2, 0x34, 0x12, 9] =
       .ok (.obj [("k", .int 1), ("s", .obj [("a", .int 2), ("b", .int 0x1234)]), ("t", .int 9)]) ∧
     Java.encBodyS { e := .little } (.root "P" items)
       (.obj [("k", .int 1), ("s", .obj [("a", .int 2), ("b", .int 0x1234)]), ("t", .int 9)]) = .ok [1, 2, 0x34, 0x12, 9] := by
-  refine ⟨by decide, by rfl, by rfl⟩
+  refine ⟨by decide, by decide, by rfl, by rfl⟩
 
 /-- **KF-C19-int-chunk**: `packet P { a: 9, b: 2, c: 29 }` (one group of 40 bits, every field at most 32 bits wide) with
     `c = 0x1fffffff`: `c << 11` is computed in `int` and loses its high bits; the emitted bytes are `01 fa ff ff 00`
